@@ -216,10 +216,43 @@ def run(ctx):
                                 src = le_u32_source(W, cand)
                                 if src is not None:
                                     break
-                        okrep = isinstance(src, tuple) and src and src[0] == "index" and values.strip_payload(src[1]) == BUF and src[2][0] == "agg" and src[2][2] == (("int", 8), ("int", 12))
+                        def flat_range(t_):
+                            """(base, lo, hi|None) of nested constant slicings `b[a..c][d..]`, `b[..c][d..e]`: the same bytes of b"""
+                            if not (isinstance(t_, tuple) and t_ and t_[0] == "index" and isinstance(t_[2], tuple) and t_[2][0] == "agg"):
+                                return (values.strip_payload(t_), 0, None)
+                            base, lo, hi = flat_range(values.strip_payload(W.expand(t_[1])))
+                            lab, ops = str(t_[2][1]), t_[2][2]
+                            if not all(isinstance(o_, tuple) and o_[0] == "int" for o_ in ops):
+                                return (t_, 0, None)
+                            if lab.endswith("Range::Range"):
+                                a_, c_ = ops[0][1], ops[1][1]
+                            elif lab.endswith("RangeFrom::RangeFrom"):
+                                a_, c_ = ops[0][1], None
+                            elif lab.endswith("RangeTo::RangeTo"):
+                                a_, c_ = 0, ops[0][1]
+                            else:
+                                return (t_, 0, None)
+                            nlo = lo + a_
+                            nhi = (lo + c_) if c_ is not None else hi
+                            return (base, nlo, nhi)
+                        fr_ = flat_range(src) if src is not None else None
+                        okrep = fr_ is not None and fr_[0] == BUF and fr_[1] == 8 and fr_[2] == 12
+
+                        def norm_len(t_, depth=0):
+                            """the payload length written as arithmetic over len(buf): conversions dropped, len(buf[k..]) = len(buf) - k"""
+                            t_ = uncast(values.strip_payload(t_))
+                            if depth > 6 or not isinstance(t_, tuple) or not t_:
+                                return t_
+                            if is_call(t_) and callee_name(t_[1]) in ("map_err", "try_from", "try_into", "from", "into", "unwrap", "expect", "ok_or", "branch") and t_[2]:
+                                return norm_len(t_[2][0], depth + 1)
+                            if t_[0] == "len":
+                                b_, lo_, hi_ = flat_range(values.strip_payload(W.expand(t_[1])))
+                                if b_ == BUF and hi_ is None:
+                                    return ("bin", "Sub", ("len", BUF), ("int", lo_)) if lo_ else ("len", BUF)
+                            return t_
                         okact = False
                         try:
-                            okact = all(arith_eval(uncast(y), {("len", BUF): L}) == L - 12 for L in (12, 16, 1024, 1500, 65536))
+                            okact = all(arith_eval(norm_len(y), {("len", BUF): L}) == L - 12 for L in (12, 16, 1024, 1500, 65536))
                         except NotArith:
                             okact = False
                         if okrep and okact:
